@@ -1,6 +1,6 @@
 """C01 - scheduler never updates a component before its input data exists."""
 from .. import bootstrap  # noqa: F401
-from ..gen import gen_e1, chain_flags
+from ..gen import gen_e1, chain_flags, gen_e1_long
 from ..monitor import run_e1
 from ..findings import e1_known_sig
 
@@ -37,6 +37,8 @@ def generate(tape, tier="quick"):
         # real library components stepping with relativedelta (months from a month-end day, mixed with days)
         from ..calendar import gen_calendar
         return gen_calendar(tape)
+    if tape.chance(1, 120):
+        return gen_e1_long(tape)
     return gen_e1(tape, tier)
 
 
@@ -51,6 +53,8 @@ RULE = RULE + (" A 1/25 share is the library family (sim/library.py): CallbackGe
                "DebugPushConsumer / ScheduleLogger, direct or through Scale; oracles here: the run does not raise and every consumer receives the publication nearest to its request.")
 REAL = list(REAL) + ["CsvReader, CsvWriter, TimeTrigger, WeightedSum, StaticCallbackGenerator, DebugPushConsumer, ScheduleLogger (library family)"]
 CAL_OWN = ('cal-run-raises', 'cal-value')
+
+RULE = RULE + (' A 1/120 share is the large family (gen.gen_e1_long): a series of 14-70 components each reading its upstream neighbour while connecting, listed downstream-first / upstream-first / shuffled, or an hourly producer read through a delay of 130-260 hours by a slow consumer (and directly by a prompt one).')
 
 
 def execute(sc):
